@@ -310,6 +310,10 @@ impl Property for P {
             "custom timestamp formats are valid chrono formats that contain a full date (documented requirement)".into(),
         ]
     }
+    fn case_timeout() -> std::time::Duration {
+        // cases take milliseconds; 10 s without progress is a hang
+        std::time::Duration::from_secs(10)
+    }
     fn cases(tier: Tier) -> u64 {
         match tier {
             Tier::Quick => 40_000,
